@@ -75,8 +75,11 @@ type trEffect struct {
 var trUnits = []trUnit{
 	{ns: "Fs", pkgDir: "internal/io/fs", matchExt: "reMatch",
 		structs: map[string][]string{"stats": nil, "readFile": {"stats", "globID", "canSkipLines"}},
+		chanTypes: map[string]string{"recv": "(List GoString)", "send": "Unit"},
+		sends:     map[string]string{"lines": "lines"}, sendOwner: "readFile", sendTypes: map[string]string{"lines": "GoLine"},
+		subst:     map[string]string{"len(lines)": "ext.linesLen", "cap(lines)": "ext.linesCap"},
 		funcs: []string{"stats.totalLineCount", "stats.transmittedPerc", "stats.updatePosition", "stats.updateLineMatched", "stats.updateLineTransmitted",
-			"stats.updateLineNotMatched", "stats.updateLineNotTransmitted", "readFile.transmittable"}},
+			"stats.updateLineNotMatched", "stats.updateLineNotTransmitted", "readFile.transmittable", "readFile.filterWithoutLContext"}},
 	{ns: "Regex", pkgDir: "internal/regex", matchExt: "reMatchRaw",
 		structs: map[string][]string{"Regex": nil},
 		enums:   []string{"Flag"},
